@@ -1,6 +1,7 @@
 SPECIFICATION Spec
 CONSTANT Threshold = 2
 CONSTANT NMsgs = 4
+CONSTANT MaxDelta = 1
 CONSTANT Fwd = {"f1","f2","f3"}
 INVARIANT ThresholdHolds
 INVARIANT CountSane
